@@ -5,7 +5,7 @@ mutable package-level state are regenerated facts checked by `decide`).
 Ties: T4 facts; the genambig corpus run through the real binary: N repeated runs per package on fresh
 copies (the runtime re-randomises map order each time) and every invocation variant (alone / grouped in
 several argument orders / ./... / import path / from other working directories / with a package that
-imports it / mixed spellings); sha256 of every derived.gen.go must be the same everywhere."""
+imports it / mixed spellings / the same invocation again over its own output); sha256 of every derived.gen.go must be the same everywhere."""
 import collections
 import json
 import os
@@ -64,6 +64,7 @@ def run(rep):
         rep.cov["corpus"] = stats
         cases = json.load(open(os.path.join(src, "cases.json")))
         pkgs = [c["pkg"] for c in cases]
+        kind_of = {c["pkg"]: c["kind"] for c in cases}
         work = os.path.join(sd, "work")
         os.makedirs(work)
 
@@ -101,11 +102,15 @@ def run(rep):
             if r["sha"][p] != "absent":
                 distinct.add((p, variant))
             if r["sha"][p] != b["sha"][p]:
-                flag("C08/bytes-differ:" + variant.split("#")[0],
+                cls = "C08/bytes-differ:" + variant.split("#")[0]
+                if kind_of.get(p) == "uses-test-augmented-dependency":
+                    cls = "C08/bytes-differ:dependency-test-files-visible"
+                flag(cls,
                      "derived.gen.go of package %s differs from its baseline (goderive ./%s alone) under variant '%s': %s vs %s" % (
                          p, p, variant, r["sha"][p][:12], b["sha"][p][:12]),
                      {"package": p, "cmd": cmd, "baseline_cmd": "goderive ./" + p, "variant": variant,
                       "files": runs.read_tree(os.path.join(src, p)), "stderr": r["out"][-800:],
+                      "dependency_files": runs.read_tree(os.path.join(src, "dep")) if kind_of.get(p) == "uses-test-augmented-dependency" else {},
                       "baseline_sha": b["sha"][p], "variant_sha": r["sha"][p]})
 
         # ---- 2. repeated runs, each package alone (rejected ones: same status and message every time)
@@ -140,6 +145,8 @@ def run(rep):
             variants.append(("relative-from-sibling", "x", ["../" + p], [p], ()))
             variants.append(("import-path-alone", None, ["ambig/" + p], [p], ()))
             variants.append(("import-path-from-package-dir", p, ["ambig/" + p], [p], ()))
+            variants.append(("rerun-over-own-output", None, ["./" + p], [p], ()))
+            variants.append(("rerun-twice-over-own-output", None, ["./" + p], [p], ()))
         if "user" in ok and "amb2" in ok:
             variants.append(("with-importer-first", None, ["./user", "./amb2"], ["user", "amb2"], ()))
             variants.append(("with-importer-last", None, ["./amb2", "./user"], ["user", "amb2"], ()))
@@ -157,6 +164,9 @@ def run(rep):
                 root = fresh(src, work, "v-%d-%s-%d-%d" % (abs(hash((name, cwd, tuple(args0)))) % 10 ** 8, name, i, attempt), drop)
                 args = [a.replace("ABS/", root + "/") for a in args0]
                 r = runs.goderive(binp, os.path.join(root, cwd) if cwd else root, args, timeout=limit)
+                for _ in range({"rerun-over-own-output": 1, "rerun-twice-over-own-output": 2}.get(name, 0)):
+                    if r["rc"] == 0 and not r["timeout"]:  # the same invocation again, over the file that is now there
+                        r = runs.goderive(binp, os.path.join(root, cwd) if cwd else root, args, timeout=limit)
                 r["sha"] = shas(root, pkgs)
                 shutil.rmtree(root, ignore_errors=True)
                 if not r["timeout"]:
